@@ -45,7 +45,6 @@ pub struct Model {
     pub shown: BTreeMap<usize, u128>,
     /// Context flags for violation keys.
     pub faults: bool,
-    pub clock_regressed: bool,
     pub reopened: bool,
     pub extensions: u64,
 }
@@ -100,8 +99,8 @@ impl Model {
 
     pub fn key(&self, full: bool) -> String {
         format!(
-            "full={},faults={},clock_regressed={},reopened={}",
-            full, self.faults, self.clock_regressed, self.reopened
+            "full={},faults={},reopened={}",
+            full, self.faults, self.reopened
         )
     }
 
